@@ -827,6 +827,20 @@ pub fn build_locals_zero_group(pos: usize, zty: u8) -> Vec<u8> {
 pub fn locals_family() -> Vec<Member> {
     let tys = [I32, I64, F32, EXTERNREF];
     let mut out = vec![];
+    // locals that only dead code mentions, directly or inside a construct that starts in dead code
+    for (k, (term, nested)) in [("(return (local.get $a))", true), ("(return (local.get $a))", false), ("(unreachable)", true), ("(br 0 (local.get $a))", true), ("(br_table 0 0 (local.get $a) (i32.const 0))", true)].iter().enumerate() {
+        let dead = if *nested {
+            "(block (local.set $b (i64.const 2)) (loop (local.set $c (f32.const 1)) (if (local.get $a) (then (local.set $d (ref.null extern))))))"
+        } else {
+            "(local.set $b (i64.const 2)) (local.set $c (f32.const 1)) (local.set $d (ref.null extern))"
+        };
+        let src = format!(
+            r#"(module (func (export "f") (param i32) (result i32) (local $a i32) (local $b i64) (local $c f32) (local $d externref) (local $e i32)
+                 (local.set $e (i32.const 3)) (local.set $a (i32.add (local.get 0) (local.get $e))) {} {} (local.get $a)))"#,
+            term, dead
+        );
+        out.push(Member { family: "locals", coords: format!("dead-code-only locals #{} nested={}", k, nested), wasm: wat::parse_str(&src).unwrap_or_else(|e| panic!("dead locals {}: {}", k, e)) });
+    }
     for pos in 0..3usize {
         for zty in [I32, F64, V128, FUNCREF, EXTERNREF] {
             out.push(Member { family: "locals", coords: format!("zero-count-group pos={} type={:#x}", pos, zty), wasm: build_locals_zero_group(pos, zty) });
@@ -1201,6 +1215,14 @@ pub fn names_family(tier: Tier) -> Vec<Member> {
     let mut out = vec![];
     for parity in 0..2u32 {
         out.push(Member { family: "names", coords: format!("sparse parity={}", parity), wasm: build_names_sparse(parity) });
+    }
+    // the names spread over two `name` sections (custom sections may repeat): a split in the middle,
+    // a module-name-only "stamp" appended after the full section, and one placed in front of everything
+    for (what, first, first_gap, second) in [("split-funcs|rest", 0b000000110u32, 12usize, 0b111111001u32), ("split-rest|funcs", 0b111111001, 12, 0b000000110), ("full+stamp", 0b111111110, 12, 0b000000001), ("stamp-first+full", 0b000000001, 0, 0b111111110)] {
+        let mut mb = names_base(0);
+        mb.customs.push((first_gap, "name".into(), names_payload(0, first)));
+        mb.customs.push((12, "name".into(), names_payload(0, second)));
+        out.push(Member { family: "names", coords: format!("two name sections: {}", what), wasm: mb.build() });
     }
     for sub in [1u8, 2, 4, 5, 6, 7, 8, 9] {
         for variant in 0..(if sub == 2 { 2 } else { 1 }) {
@@ -1791,6 +1813,26 @@ pub fn minimal_family() -> Vec<Member> {
         ("export-only-global", r#"(module (import "a" "g" (global $o i32)) (global $l (export "l") i32 (global.get $o)) (func $dead))"#),
         ("funcs-no-data-count", r#"(module (memory 1) (func (export "f") (i32.store (i32.const 0) (i32.const 1))) (data (i32.const 0) "a"))"#),
         ("memory-init-on-active-segment", r#"(module (memory 1) (func (export "f") (memory.init 0 (i32.const 0) (i32.const 0) (i32.const 0))) (func (export "g")) (data (i32.const 0) "a"))"#),
+        // imports that share module and field name (valid wasm), one used and one not, in both orders and for every kind
+        ("dup-import-func-first-used", r#"(module (import "env" "f" (func $a)) (import "env" "f" (func $b (param i32))) (func (export "run") (i32.const 8301) (drop) (call $a)))"#),
+        ("dup-import-func-second-used", r#"(module (import "env" "f" (func $a)) (import "env" "f" (func $b (param i32))) (func (export "run") (i32.const 8302) (drop) (call $b (i32.const 1))))"#),
+        ("dup-import-func-same-sig-first-used", r#"(module (import "env" "f" (func $a)) (import "env" "f" (func $b)) (import "env" "f" (func $c)) (func (export "run") (i32.const 8303) (drop) (call $a)))"#),
+        ("dup-import-global-first-used", r#"(module (import "env" "g" (global $a i32)) (import "env" "g" (global $b i32)) (func (export "run") (result i32) (i32.const 8304) (drop) (global.get $a)))"#),
+        ("dup-import-global-second-used", r#"(module (import "env" "g" (global $a i32)) (import "env" "g" (global $b i32)) (func (export "run") (result i32) (i32.const 8305) (drop) (global.get $b)))"#),
+        ("dup-import-table-first-used", r#"(module (import "env" "t" (table $a 1 funcref)) (import "env" "t" (table $b 2 funcref)) (func (export "run") (result i32) (i32.const 8306) (drop) (table.size $a)))"#),
+        ("dup-import-mixed-kinds", r#"(module (import "env" "x" (func $f)) (import "env" "x" (global $g i32)) (import "env" "x" (table $t 1 funcref)) (func (export "run") (result i32) (i32.const 8307) (drop) (global.get $g)))"#),
+        // empty segments of every mode, referenced by the instructions that may name them
+        ("empty-declared-elem-dropped", r#"(module (table 1 funcref) (elem $d declare func) (func (export "f") (i32.const 8320) (drop) (elem.drop $d)))"#),
+        ("empty-declared-elem-table-init", r#"(module (table 1 funcref) (elem $d declare funcref) (func (export "f") (i32.const 8321) (drop) (table.init $d (i32.const 0) (i32.const 0) (i32.const 0))))"#),
+        ("empty-passive-and-active-elem", r#"(module (table 1 funcref) (elem $p func) (elem $a (i32.const 0) func) (func (export "f") (i32.const 8322) (drop) (elem.drop $p) (elem.drop $a)))"#),
+        ("empty-declared-elem-unreferenced", r#"(module (table 1 funcref) (func $x) (elem $d declare func) (elem $e declare func $x) (func (export "f") (i32.const 8323) (drop) (ref.func $x) (drop)))"#),
+        ("empty-passive-data-dropped", r#"(module (memory 1) (data $p "") (data $q "q") (func (export "f") (i32.const 8324) (drop) (data.drop $p) (memory.init $q (i32.const 0) (i32.const 0) (i32.const 1))))"#),
+        // an unreferenced passive segment ahead of a referenced one: gc renumbers the survivor
+        ("passive-data-second-used", r#"(module (memory 1) (data $a "aaaa") (data $b "bbbbbb") (data $c "cc") (func (export "f") (i32.const 8308) (drop) (memory.init $b (i32.const 0) (i32.const 0) (i32.const 1)) (data.drop $b)) (func (export "g") (i32.const 8309) (drop) (data.drop $c)))"#),
+        ("passive-elem-second-used", r#"(module (table 4 funcref) (func $x) (func $y) (elem $a func $x) (elem $b func $y $y) (elem $c func $x $y $x) (func (export "f") (i32.const 8310) (drop) (table.init $b (i32.const 0) (i32.const 0) (i32.const 1)) (elem.drop $b)) (func (export "g") (i32.const 8311) (drop) (elem.drop $c)))"#),
+        // an active element segment with a non-constant offset on a table nothing reaches
+        ("dead-table-global-offset-elem", r#"(module (import "a" "g" (global $o i32)) (table $t 4 funcref) (func $x) (func (export "live") (i32.const 8312) (drop)) (elem (table $t) (global.get $o) func $x))"#),
+        ("dead-memory-global-offset-data-and-live-memory", r#"(module (import "a" "g" (global $o i32)) (memory $m 1) (func (export "live") (i32.const 8313) (drop)) (data (memory $m) (global.get $o) "zz"))"#),
     ];
     srcs.into_iter()
         .map(|(n, src)| Member { family: "minimal", coords: n.to_string(), wasm: wat::parse_str(src).unwrap_or_else(|e| panic!("minimal module {}: {}", n, e)) })
